@@ -45,6 +45,8 @@ func kinds() []kindSpec {
 		{"*int", reflect.TypeOf(&i), "int", "3", "3"},
 		{"*string", reflect.TypeOf(&s), "string", "a", `"a"`},
 		{"[]int", reflect.TypeOf([]int{}), "other", "", ""},
+		{"[]string/default", reflect.TypeOf([]string{}), "other", "[a,b]", `["a","b"]`},
+		{"[]int/default", reflect.TypeOf([]int{}), "other", "[1,2]", `[1,2]`},
 		{"[]int8", reflect.TypeOf([]int8{}), "other", "", ""},
 		{"[]string", reflect.TypeOf([]string{}), "other", "", ""},
 		{"[][]int", reflect.TypeOf([][]int{}), "other", "", ""},
@@ -199,6 +201,7 @@ func TestVerifUnmarshalMatrix(t *testing.T) {
 					doc = `{"f":` + dv + `}`
 				}
 				results := map[string]string{}
+				firstSnap := map[string]string{}
 				for _, p := range paths {
 					for round := 0; round < 2; round++ { // cold and warm process-wide caches
 						pv := reflect.New(st)
@@ -220,6 +223,14 @@ func TestVerifUnmarshalMatrix(t *testing.T) {
 							continue
 						}
 						checkOne(c, in, k, tagSuffix, dv, fv, err)
+						// what one call returned belongs to its caller: scribbling over it must not
+						// show up in what a later call returns (shared defaults, aliased documents)
+						if round == 0 {
+							firstSnap[p.name] = results[p.name]
+							scramble(fv)
+						} else if err == nil && firstSnap[p.name] != results[p.name] {
+							c.Violation(in, "aliasing/"+k.name, fmt.Sprintf("the same document gave %s, and after the caller modified that result in place a second call gives %s", firstSnap[p.name], results[p.name]))
+						}
 					}
 				}
 				if portableDoc(dv) && results["json"] != results["yaml"] {
@@ -244,6 +255,56 @@ func portableDoc(dv string) bool {
 		}
 	}
 	return true
+}
+
+// scramble overwrites everything reachable from v in place.
+func scramble(v reflect.Value) {
+	switch v.Kind() {
+	case reflect.Ptr:
+		if !v.IsNil() {
+			scramble(v.Elem())
+		}
+	case reflect.Slice:
+		for i := 0; i < v.Len(); i++ {
+			scramble(v.Index(i))
+		}
+	case reflect.Map:
+		for _, k := range v.MapKeys() {
+			e := reflect.New(v.Type().Elem()).Elem()
+			e.Set(v.MapIndex(k))
+			scramble(e)
+			v.SetMapIndex(k, e)
+		}
+		if v.Len() > 0 && v.Type().Key().Kind() == reflect.String {
+			v.SetMapIndex(reflect.ValueOf("scribbled").Convert(v.Type().Key()), reflect.Zero(v.Type().Elem()))
+		}
+	case reflect.Struct:
+		for i := 0; i < v.NumField(); i++ {
+			if v.Field(i).CanSet() {
+				scramble(v.Field(i))
+			}
+		}
+	case reflect.String:
+		if v.CanSet() {
+			v.SetString("scribbled")
+		}
+	case reflect.Int, reflect.Int8, reflect.Int16, reflect.Int32, reflect.Int64:
+		if v.CanSet() {
+			v.SetInt(77)
+		}
+	case reflect.Uint, reflect.Uint8, reflect.Uint16, reflect.Uint32, reflect.Uint64:
+		if v.CanSet() {
+			v.SetUint(77)
+		}
+	case reflect.Float32, reflect.Float64:
+		if v.CanSet() {
+			v.SetFloat(7.5)
+		}
+	case reflect.Bool:
+		if v.CanSet() {
+			v.SetBool(!v.Bool())
+		}
+	}
 }
 
 func derefPrint(v reflect.Value) string {
